@@ -20,7 +20,9 @@ use crate::ops_tzdb::iana_names;
 use crate::rng::Rng;
 use serde_json::{json, Value};
 
-pub const QUICK_ZONES: [&str; 42] = [
+pub const QUICK_ZONES: [&str; 48] = [
+    // (the first six: zones sharing a 16-byte identifier prefix with different rules, queried in the same provider sessions)
+    "America/Indiana/Indianapolis", "America/Indiana/Knox", "America/Indiana/Tell_City", "America/Argentina/Buenos_Aires", "America/Argentina/San_Luis", "America/Argentina/Ushuaia",
     "Europe/Dublin", "America/New_York", "Australia/Sydney", "Asia/Kolkata", "Africa/Casablanca", "Etc/GMT+5", "UTC",
     "Pacific/Apia", "America/St_Johns", "Asia/Kathmandu", "Europe/London", "Europe/Berlin", "Europe/Lisbon", "Europe/Moscow",
     "Europe/Chisinau", "Asia/Gaza", "Asia/Jerusalem", "Asia/Tehran", "Asia/Tokyo", "Asia/Kabul", "Asia/Pyongyang",
@@ -103,6 +105,12 @@ pub fn queries_for(zone: &str, tab: &Value, r: &mut Rng, cap: usize, thorough: b
     off_q(&mut q, 2_147_483_647, 0); off_q(&mut q, 2_147_483_648, 0); off_q(&mut q, -2_147_483_648, 0); off_q(&mut q, -2_147_483_649, 0);
     off_q(&mut q, 0, 0); off_q(&mut q, -1, 999_999_999);
     if n > 0 { off_q(&mut q, tsec(0) - 31_536_000, 0); off_q(&mut q, tsec(n - 1) + 1, 0); off_q(&mut q, tsec(n - 1) + 315_360_000, 0); }
+    // a wall-clock reading whose instant is outside the representable range, between two identical answerable questions:
+    // the failing call must not change the second answer (one of the two range ends fails, depending on the sign of the offset)
+    for far in [days_from_civil(275760, 9, 13) * 86_400 + 43_200, days_from_civil(-271821, 4, 20) * 86_400 + 1] {
+        let t0 = days_from_civil(2001, 9, 9) * 86_400 + 6400 + r.range(0, 86_399);
+        loc_q(&mut q, t0, 0); loc_q(&mut q, far, 0); loc_q(&mut q, t0, 0);
+    }
     // rule-based transitions after the table
     let f = &tab["footer"];
     if f["kind"] == "rule" {
